@@ -212,3 +212,303 @@ pub fn check_positional(cfg: &Cfg, scene: u64, cur_epoch: usize, dets: &[DBox], 
     }
     Verdict::Ok { nontrivial: opt - greedy > 10 * tau, opt, greedy, pairs_gated: gated }
 }
+
+// ------------------------------------------------------------------------------------------------
+// VisualSORT decisions (C12)
+
+#[derive(Clone, Copy, Debug, PartialEq)]
+pub enum Tri {
+    Yes,
+    No,
+    Band,
+}
+
+fn ge_input(v: f64, thr: f64) -> Tri {
+    // both sides are inputs (exactly representable): exact comparison
+    if v >= thr {
+        Tri::Yes
+    } else {
+        Tri::No
+    }
+}
+fn ge_computed(v: f64, thr: f64, rel: f64) -> Tri {
+    if v == thr {
+        return Tri::Yes;
+    }
+    if (v - thr).abs() <= rel * thr.abs().max(1e-9) {
+        return Tri::Band;
+    }
+    if v > thr {
+        Tri::Yes
+    } else {
+        Tri::No
+    }
+}
+fn and3(a: Tri, b: Tri) -> Tri {
+    match (a, b) {
+        (Tri::No, _) | (_, Tri::No) => Tri::No,
+        (Tri::Band, _) | (_, Tri::Band) => Tri::Band,
+        _ => Tri::Yes,
+    }
+}
+
+pub fn own_area_enabled(cfg: &Cfg) -> bool {
+    cfg.vis.own_use + cfg.vis.own_collect > 0.0
+}
+
+/// own-area shares of the call's boxes through the library function (its correctness is C15's business)
+pub fn own_shares(dets: &[Det]) -> Vec<f32> {
+    use similari::utils::clipping::bbox_own_areas::{exclusively_owned_areas, exclusively_owned_areas_normalized_shares};
+    let boxes: Vec<similari::prelude::Universal2DBox> = dets.iter().map(|d| d.b.lib()).collect();
+    let refs: Vec<&similari::prelude::Universal2DBox> = boxes.iter().collect();
+    exclusively_owned_areas_normalized_shares(&refs, &exclusively_owned_areas(&refs))
+}
+
+pub fn usable(cfg: &Cfg, d: &Det, share: Option<f32>, q_thr: f32, own_thr: f32) -> Tri {
+    let area = ge_computed(d.b.area(), cfg.vis.min_area as f64, 1e-6);
+    let q = ge_input(d.quality.unwrap_or(1.0) as f64, q_thr as f64);
+    let own = match share {
+        Some(p) => ge_computed(p as f64, own_thr as f64, 1e-4),
+        None => Tri::Yes,
+    };
+    and3(and3(area, q), own)
+}
+
+fn pad8(v: &[f32]) -> Vec<f64> {
+    let mut p: Vec<f64> = v.iter().map(|x| *x as f64).collect();
+    while p.len() % 8 != 0 || p.is_empty() {
+        p.push(0.0);
+    }
+    p
+}
+
+/// (distance as used for weights, within-threshold?) for one feature pair
+pub fn feature_distance(cfg: &Cfg, a: &[f32], b: &[f32]) -> (f64, Tri) {
+    let (pa, pb) = (pad8(a), pad8(b));
+    let n = pa.len().min(pb.len());
+    match cfg.vis.metric {
+        VisMetric::Euclid(t) => {
+            let d = (0..n).map(|i| (pa[i] - pb[i]).powi(2)).sum::<f64>().sqrt();
+            // ok iff d <= t
+            let tri = match ge_computed(t as f64, d, 1e-5) {
+                x => x,
+            };
+            (d, tri)
+        }
+        VisMetric::Cosine(t) => {
+            let dot: f64 = (0..n).map(|i| pa[i] * pb[i]).sum();
+            let na: f64 = (0..n).map(|i| pa[i] * pa[i]).sum();
+            let nb: f64 = (0..n).map(|i| pb[i] * pb[i]).sum();
+            let c = dot / (na * nb).sqrt();
+            (1.0 - c, ge_computed(c, t as f64, 1e-5))
+        }
+    }
+}
+
+#[derive(Clone, Debug)]
+pub struct Claim {
+    pub det: usize,
+    pub track: u64,
+    pub votes: usize,
+    pub weight: f64,
+}
+
+pub struct VisualEval {
+    pub claims: Vec<Claim>,
+    pub undecidable: Option<&'static str>,
+    pub contests: usize,
+    pub usable: Vec<Tri>,
+}
+
+pub fn eval_visual(cfg: &Cfg, scene: u64, epoch: usize, dets: &[Det], cands: &[&LiveTrack], shares: &Option<Vec<f32>>) -> VisualEval {
+    let mut undec = None;
+    let mut usable_v = vec![];
+    // all emitted distances (for "largest distance seen")
+    let mut emitted: Vec<(usize, usize, f64)> = vec![];
+    for (i, d) in dets.iter().enumerate() {
+        let u = usable(cfg, d, shares.as_ref().map(|s| s[i]), cfg.vis.q_use, cfg.vis.own_use);
+        usable_v.push(u);
+        let f = match &d.feature {
+            Some(f) => f,
+            None => continue,
+        };
+        if u == Tri::No {
+            continue;
+        }
+        for (j, t) in cands.iter().enumerate() {
+            let c = compat(cfg, &d.b, scene, t, epoch);
+            if !c.decidable {
+                undec = Some("constraint-band");
+                continue;
+            }
+            if c.weight.is_none() {
+                continue;
+            }
+            if t.collected_count < cfg.vis.min_track_len {
+                continue;
+            }
+            for g in &t.gallery {
+                if let Some(gf) = &g.feature {
+                    let (dist, ok) = feature_distance(cfg, f, gf);
+                    match ok {
+                        Tri::Yes => {
+                            if u == Tri::Band {
+                                undec = Some("usable-band");
+                            } else {
+                                emitted.push((i, j, dist));
+                            }
+                        }
+                        Tri::Band => undec = Some("feature-distance-band"),
+                        Tri::No => {}
+                    }
+                }
+            }
+        }
+    }
+    let max_seen = emitted.iter().map(|e| e.2).fold(-1.0f64, f64::max);
+    let mut claims: Vec<Claim> = vec![];
+    for (i, j, d) in &emitted {
+        match claims.iter_mut().find(|c| c.det == *i && c.track == cands[*j].id) {
+            Some(c) => {
+                c.votes += 1;
+                c.weight += max_seen - d;
+            }
+            None => claims.push(Claim { det: *i, track: cands[*j].id, votes: 1, weight: max_seen - d }),
+        }
+    }
+    claims.retain(|c| c.votes >= cfg.vis.min_votes);
+    let mut per_track: std::collections::HashMap<u64, usize> = std::collections::HashMap::new();
+    for c in &claims {
+        *per_track.entry(c.track).or_default() += 1;
+    }
+    let contests = per_track.values().filter(|n| **n >= 2).count();
+    VisualEval { claims, undecidable: undec, contests, usable: usable_v }
+}
+
+pub enum VVerdict {
+    Ok { claims: usize, contests: usize, visual_attachments: usize, positional_checked: bool, positional_nontrivial: bool },
+    Undecidable(&'static str),
+    Violation(String, Value),
+}
+
+fn clearly_greater(a: f64, b: f64) -> bool {
+    a > b && (a - b) > 1e-4 * a.abs().max(b.abs()).max(1e-9)
+}
+
+pub fn check_visual_call(cfg: &Cfg, scene: u64, epoch: usize, dets: &[Det], recs: &[Rec], pre: &[LiveTrack]) -> VVerdict {
+    let pre_ids: std::collections::HashSet<u64> = pre.iter().map(|t| t.id).collect();
+    let assigned: Vec<Option<u64>> = recs.iter().map(|r| if pre_ids.contains(&r.id) { Some(r.id) } else { None }).collect();
+    let cont: std::collections::HashSet<u64> = assigned.iter().flatten().cloned().collect();
+    let cands: Vec<&LiveTrack> = pre.iter().filter(|t| t.scene == scene && (epoch <= t.last_epoch + cfg.max_idle || cont.contains(&t.id))).collect();
+    let shares = if own_area_enabled(cfg) { Some(own_shares(dets)) } else { None };
+    let ev = eval_visual(cfg, scene, epoch, dets, &cands, &shares);
+    // structural: a visual record must be a continuation
+    for (i, r) in recs.iter().enumerate() {
+        if r.visual && assigned[i].is_none() {
+            // a new track reports the default (positional) voting type... unless it lost a contest: the library marks
+            // losers as visual winners of "themselves"; the record of a fresh track carries no voting type -> positional
+            return VVerdict::Violation("new-track-reported-as-visual".into(), json!({"det": i, "record": r.js()}));
+        }
+    }
+    if let Some(w) = ev.undecidable {
+        return VVerdict::Undecidable(w);
+    }
+    let claims_of = |i: usize| -> Vec<&Claim> {
+        let mut v: Vec<&Claim> = ev.claims.iter().filter(|c| c.det == i).collect();
+        v.sort_by(|a, b| b.weight.partial_cmp(&a.weight).unwrap());
+        v
+    };
+    let claimants_of = |t: u64| -> Vec<&Claim> {
+        let mut v: Vec<&Claim> = ev.claims.iter().filter(|c| c.track == t).collect();
+        v.sort_by(|a, b| b.weight.partial_cmp(&a.weight).unwrap());
+        v
+    };
+    let ctx = |extra: Value| {
+        json!({"extra": extra, "claims[det,track,votes,weight]": ev.claims.iter().map(|c| json!([c.det, c.track, c.votes, c.weight])).collect::<Vec<_>>(),
+        "dets": dets.iter().map(|d| d.js()).collect::<Vec<_>>(), "records": recs.iter().map(|r| json!([r.id, r.visual])).collect::<Vec<_>>(), "usable": format!("{:?}", ev.usable), "own_shares": shares,
+        "tracks": cands.iter().map(|t| json!({"id": t.id, "collected": t.collected_count, "gallery": t.gallery.iter().map(|g| json!([g.feature, g.quality])).collect::<Vec<_>>(), "last_epoch": t.last_epoch})).collect::<Vec<_>>()})
+    };
+    let mut visual_attachments = 0;
+    for (i, r) in recs.iter().enumerate() {
+        if let Some(tid) = assigned[i] {
+            let my = ev.claims.iter().find(|c| c.det == i && c.track == tid);
+            if r.visual {
+                visual_attachments += 1;
+                // (a) visual only for a qualifying claim of the greatest-weight claimant
+                match my {
+                    None => {
+                        let why = if ev.usable[i] == Tri::No { "feature-not-usable" } else if dets[i].feature.is_none() { "no-feature" } else { "no-qualifying-claim" };
+                        return VVerdict::Violation(format!("visual-attachment-without-claim/{}", why), ctx(json!({"det": i, "track": tid})));
+                    }
+                    Some(c) => {
+                        let cl = claimants_of(tid);
+                        if cl[0].det != i && clearly_greater(cl[0].weight, c.weight) {
+                            return VVerdict::Violation("visual-attachment-to-lesser-claimant".into(), ctx(json!({"det": i, "track": tid})));
+                        }
+                    }
+                }
+            } else if let Some(c) = my {
+                // (c) a claimant that is attached positionally to a track it claimed
+                let cl = claimants_of(tid);
+                if cl[0].det != i && clearly_greater(cl[0].weight, c.weight) {
+                    return VVerdict::Violation("loser-attached-to-contested-track".into(), ctx(json!({"det": i, "track": tid})));
+                }
+                if cl[0].det == i && (cl.len() == 1 || clearly_greater(c.weight, cl[1].weight)) && claims_of(i)[0].track == tid {
+                    return VVerdict::Violation("appearance-winner-reported-as-positional".into(), ctx(json!({"det": i, "track": tid})));
+                }
+            }
+        }
+    }
+    // (b) the clear top claimant of its own clear best claim must get the track by appearance
+    for i in 0..dets.len() {
+        let mine = claims_of(i);
+        if mine.is_empty() {
+            continue;
+        }
+        if mine.len() > 1 && !clearly_greater(mine[0].weight, mine[1].weight) {
+            continue;
+        }
+        let t = mine[0].track;
+        let cl = claimants_of(t);
+        if cl[0].det != i {
+            continue;
+        }
+        if cl.len() > 1 && !clearly_greater(cl[0].weight, cl[1].weight) {
+            continue;
+        }
+        if !(assigned[i] == Some(t) && recs[i].visual) {
+            return VVerdict::Violation("best-appearance-claim-not-honoured".into(), ctx(json!({"det": i, "track": t, "got": [recs[i].id, recs[i].visual as u64]})));
+        }
+    }
+    // (d) detections without any claim: optimal positional assignment among tracks not taken by appearance
+    let taken: std::collections::HashSet<u64> = recs.iter().enumerate().filter(|(i, r)| r.visual && assigned[*i].is_some()).map(|(_, r)| r.id).collect();
+    let no_claim: Vec<usize> = (0..dets.len()).filter(|i| claims_of(*i).is_empty()).collect();
+    let pos_tracks: Vec<&LiveTrack> = cands.iter().filter(|t| !taken.contains(&t.id)).cloned().collect();
+    let boxes: Vec<DBox> = no_claim.iter().map(|i| dets[*i].b).collect();
+    let asg: Vec<Option<u64>> = no_claim.iter().map(|i| assigned[*i]).collect();
+    for (k, i) in no_claim.iter().enumerate() {
+        if recs[*i].visual {
+            return VVerdict::Violation("visual-attachment-without-claim/no-claim".into(), ctx(json!({"det": i})));
+        }
+        if let Some(t) = asg[k] {
+            if taken.contains(&t) {
+                return VVerdict::Violation("positional-attachment-to-track-taken-by-appearance".into(), ctx(json!({"det": i, "track": t})));
+            }
+        }
+    }
+    // tracks continued by claimants positionally (a claimant attached to a track it did not claim) are removed too
+    let claimant_tracks: std::collections::HashSet<u64> = (0..dets.len()).filter(|i| !claims_of(*i).is_empty()).filter_map(|i| assigned[i]).collect();
+    let pos_tracks: Vec<&LiveTrack> = pos_tracks.into_iter().filter(|t| !claimant_tracks.contains(&t.id) || taken.contains(&t.id)).collect();
+    let mut positional_checked = false;
+    let mut positional_nontrivial = false;
+    match check_positional(cfg, scene, epoch, &boxes, &asg, &pos_tracks) {
+        Verdict::Ok { nontrivial, .. } => {
+            positional_checked = true;
+            positional_nontrivial = nontrivial;
+        }
+        Verdict::Undecidable(w) => return VVerdict::Undecidable(w),
+        Verdict::Skipped(_) => {}
+        Verdict::Violation(sig, d) => return VVerdict::Violation(format!("positional-stage/{}", sig), json!({"detail": d, "ctx": ctx(json!({"dets_without_claim": no_claim}))})),
+    }
+    VVerdict::Ok { claims: ev.claims.len(), contests: ev.contests, visual_attachments, positional_checked, positional_nontrivial }
+}
